@@ -18,6 +18,7 @@ class Loop:
     def __init__(self, invariant=(), variant=None, modifies=(), locals=None, on_bind=None, progress=()):
         self.on_bind = on_bind
         self.progress = list(progress)     # clauses over (iteration start, back edge): a well-founded measure decreased
+        self.step = []                     # clauses relating iteration start and back edge (transition relation), kind 'step'
         self.invariant = list(invariant)
         self.variant = variant
         self.modifies = list(modifies)
